@@ -190,7 +190,8 @@ def entity_table_check(ctx):
 
 
 def run(ctx):
-    ok = ctx.lean_stage(["entities"], ["Verif.Props.C03"])
+    ok = ctx.lean_stage(["entities"], ["Verif.Props.C03", "Verif.Props.BqCount"])
+    ctx.block("bqcountlib", "bqcount")          # count = recursive specification / CommonMark marker definition (count_eq_spec)
     if not ok:
         ctx.broken.append("lake build failed: the reference model cannot be run")
     acc, base = Acc(), vlib.InputBaseline("C03")
